@@ -43,8 +43,13 @@ fn set_nonblocking<T: AsRawFd>(fd: &T, nb: bool) -> io::Result<()> {
 /// this type can be used in coroutine context without blocking the thread
 #[derive(Debug)]
 pub struct CoIo<T: AsRawFd> {
-    inner: T,
+    // `io` must be declared (and so dropped) before `inner`: dropping it removes
+    // the fd from the selector, which has to happen while the fd is still open.
+    // Once `inner` is closed any other thread can get the same fd number for a
+    // new socket and register it to the same selector, a late `del_fd` would then
+    // remove the registration of that new socket and it never sees an event again
     io: io_impl::IoData,
+    inner: T,
     #[cfg(feature = "io_timeout")]
     read_timeout: AtomicDuration,
     #[cfg(feature = "io_timeout")]
